@@ -217,6 +217,10 @@ class Interp:
         parts = name.split('.')
         if parts[0] == 'spec':
             base = os.path.join(VERIF_ROOT, *parts)
+            if os.path.exists(base + '_model.py'):
+                # a spec module whose native form uses libraries pvc does
+                # not model has a pvc-side model next to it
+                return base + '_model.py'
         elif parts[0] == 'pmutt':
             base = os.path.join(REPO_ROOT, *parts)
         else:
@@ -1122,6 +1126,8 @@ class Interp:
             f, _ = obj.cls.lookup('__getitem__')
             if f is not None:
                 return self.call(BoundMethod(obj, f), [idx], {})
+            raise_('TypeError', "'%s' object is not subscriptable"
+                   % obj.cls.name)
         if obj is None:
             raise_('TypeError', "'NoneType' object is not subscriptable")
         if isinstance(obj, range):
@@ -1471,13 +1477,15 @@ class Interp:
         self.cur_line = getattr(node, 'lineno', None)
         return self.call(f, args, kwargs)
 
-    def _comp(self, gens, env, emit):
+    def _comp(self, gens, env, emit, first_iter=UNBOUND):
         def rec(i, e):
             if i == len(gens):
                 emit(e)
                 return
             g = gens[i]
-            for x in self.iterate(self.eval(g.iter, e)):
+            src = first_iter if (i == 0 and first_iter is not UNBOUND) \
+                else self.eval(g.iter, e)
+            for x in self.iterate(src):
                 self.assign(g.target, x, e)
                 ok = True
                 for c in g.ifs:
@@ -1490,8 +1498,10 @@ class Interp:
         rec(0, cenv)
 
     def ex_ListComp(self, node, env):
+        # the outermost iterable is evaluated exactly once, in the enclosing
+        # scope (python semantics; it may have side effects such as pop())
+        it = self.eval(node.generators[0].iter, env)
         if len(node.generators) == 1:
-            it = self.eval(node.generators[0].iter, env)
             if isinstance(it, GenArr) and not node.generators[0].ifs:
                 g = node.generators[0]
 
@@ -1502,7 +1512,7 @@ class Interp:
                 return GenArr(it.n, elem)
         out = []
         self._comp(node.generators, env,
-                   lambda e: out.append(self.eval(node.elt, e)))
+                   lambda e: out.append(self.eval(node.elt, e)), it)
         return out
 
     def ex_GeneratorExp(self, node, env):
